@@ -466,6 +466,10 @@ class NumericWaveform(ABC, Generic[_TRaw, _TScaled]):
             raise create_start_index_or_sample_count_too_large_error(
                 self._start_index, value, "capacity", self.capacity
             )
+        if self._timing._timestamps is not None and value != len(self._timing._timestamps):
+            raise create_irregular_timestamp_count_mismatch_error(
+                len(self._timing._timestamps), "number of samples in the waveform", value
+            )
         self._sample_count = value
 
     @property
